@@ -866,7 +866,9 @@ def i_CMPXCHG(i, fmap):
     fmap[pf] = parity8(x[0:8])
     v = fmap(dst)
     fmap[dst] = tst(t, fmap(src), v)
-    fmap[acc] = v
+    # the accumulator is loaded only when the comparison fails (and the
+    # destination may be the accumulator itself):
+    fmap[acc] = tst(t, fmap(acc), v)
 
 
 def i_CMPXCHG8B(i, fmap):
